@@ -487,3 +487,9 @@ mod tests {
         assert_eq!(conn_info.realip_remote_addr().unwrap(), "127.0.0.1");
     }
 }
+
+#[cfg(kani)]
+mod __verif {
+    use super::*;
+    include!(concat!(env!("ACTIX_VERIF_DIR"), "/hooks/actix_web__info.rs"));
+}
